@@ -3,6 +3,8 @@
 -/
 import WowVerif.Lemmas.C18
 import WowVerif.Model.C18Coord
+import WowVerif.Model.C18Records
+import WowVerif.Lemmas.Record
 namespace Wv.C18
 open Wv Wv.Iff
 
@@ -74,5 +76,25 @@ example (main : Bytes) (hm : main.length = 32768) :
   subst h
   exact ⟨by show Wdt.shouldWriteMwmo 2 (Wdt.wmoOnly (natLE 4 0x0E ++ List.replicate 28 0)) = true; decide,
     by simp, by decide⟩
+
+/-! ### fixed-layout payloads (MPHD, MAIN entries, MODF entries) -/
+
+/-- FIELD CODECS: for each of the three fixed layouts, any values that fit their fields are read back exactly from the bytes
+    written for them, and the written record has the chunk's record size (32 / 8 / 64 bytes). The harness feeds the object's
+    field values and the writer's payload bytes through the same `Rec.enc` (ops `rec`), so "the payload is this layout" is
+    checked on every written file. -/
+theorem wdt_payload_records_roundtrip (ws : List Nat) (hws : ws = WdtRec.mphdW ∨ ws = WdtRec.mainEntryW ∨ ws = WdtRec.modfW)
+    (vs : List Nat) (hl : vs.length = ws.length) (hf : Rec.Fits (ws.zip vs)) (rest : Bytes) :
+    Rec.dec ws (Rec.enc (ws.zip vs) ++ rest) = some (vs, rest) ∧
+    (Rec.enc (ws.zip vs)).length = (if ws = WdtRec.mphdW then 32 else if ws = WdtRec.mainEntryW then 8 else 64) := by
+  have m1 : (ws.zip vs).map (·.1) = ws := by rw [List.map_fst_zip]; omega
+  have m2 : (ws.zip vs).map (·.2) = vs := by rw [List.map_snd_zip]; omega
+  have h := Rec.dec_enc (ws.zip vs) rest hf
+  rw [m1, m2] at h
+  refine ⟨h, ?_⟩
+  rw [Rec.enc_length, m1]
+  rcases hws with rfl | rfl | rfl <;> decide
+
+example : Rec.enc (WdtRec.mainEntryW.zip [1, 0x1234]) = [1, 0, 0, 0, 0x34, 0x12, 0, 0] := by decide
 
 end Wv.C18
